@@ -17,7 +17,12 @@ def h_symqsp(c):
     parity = c["parity"]
     hist = [numpy.array(dec(h), dtype=float) for h in c["history"]]
     samples = numpy.array(dec(c["samples"]), dtype=float)
-    p = SymmetricQSPProtocol(reduced_phases=numpy.array(dec(c["initial"]), dtype=float), parity=parity)
+    init = dec(c["initial"])
+    if c.get("int_init"):
+        init = [int(x) for x in init]          # a Python list of ints, as a caller (and the test suite) would write [0]*k
+    else:
+        init = numpy.array(init, dtype=float)
+    p = SymmetricQSPProtocol(reduced_phases=init, parity=parity)
     states = [_proto_state(p)]
     for h in hist:
         if c.get("touch_between"):
